@@ -87,6 +87,8 @@ class WriterTranslator:
                 if fn.attr in ("items", "keys", "values") and not e.args:
                     return f"{fn.attr}({recv})"
                 return f"{recv}.{fn.attr}({', '.join(self._canon(a, fi) for a in e.args)})"
+            if isinstance(fn, ast.Name):
+                return f"{fn.id}({', '.join(self._canon(a, fi) for a in e.args)})"
         if isinstance(e, ast.BinOp):
             return f"({self._canon(e.left, fi)} {type(e.op).__name__} {self._canon(e.right, fi)})"
         if isinstance(e, ast.UnaryOp):
@@ -485,6 +487,9 @@ class ReaderTranslator:
             return toks + [("POP", name)], ("popped", name)
         if fn == "struct.unpack" and len(args) == 2:
             return toks, ("unpack", args[0], args[1])
+        sb = self.repo.struct_binding(c.func, fi)
+        if sb is not None and sb[1] == "unpack" and len(args) == 1:
+            return toks, ("unpack", ("const", sb[0]), args[0])
         if fn in ("len", "type", "isinstance"):
             return toks, (fn,) + tuple(args)
         if fn in ("int", "complex", "tuple", "set", "frozenset", "list", "bytes", "str", "float"):
